@@ -1,6 +1,7 @@
 import ZenonVerif.Lemmas.Pool
 import ZenonVerif.Lemmas.PoolFilter
 import ZenonVerif.Lemmas.PoolChain
+import ZenonVerif.Gen.Subscribe
 /-
 C14 — unconfirmed pool: property theorems only.
 -/
@@ -604,6 +605,76 @@ theorem pool_lock_sites_cover : ∀ n ∈ ["AddAccountBlockTransaction", "ForceA
     "GetFrontierAccountStore", "GetAccountStore", "GetPatch", "addAccountBlockTransaction", "rebuild"],
     n ∈ Gen.poolLockSites.map (·.1) := by
   decide
+
+/-! ### S — confinement of the subscription table of rpc/api/subscribe to its worker goroutine
+
+`Server.subscriptions` (and the `Subscription` objects in it) carries no lock: it is correct only as long as exactly one
+goroutine touches it. The momentum listener `Server.InsertMomentum` runs on the INSERTING goroutine, the `Api` methods on
+the goroutines of the RPC server; both may only hand events / subscriptions over through the channels mCh, acCh,
+installCh, uninstallCh. `zvh facts` (harness/cmd/zvh/f_subscribe.go) regenerates from the AST of the package every access
+to the table, the functions that reach one without leaving their goroutine, every reference to such a function, and the
+`go` statements. -/
+
+/-- reviewed accesses: the table is created in the constructor (under `oneSingleton`, before the server is published),
+    filled with the per-type maps in `Init` (zenon.Init, before `Start`: the worker does not exist yet), and from then on
+    read and written by the worker's functions only -/
+def reviewedSubscribeAccess : List (String × String) := [
+  ("GetSubscribeServer", "composite-init"),
+  ("Server.Init", "write-index"),
+  ("Server.work", "assign"),
+  ("Server.install", "write-index"),
+  ("Server.uninstall", "delete"),
+  ("Server.broadcastMomentums", "range"),
+  ("Server.broadcastBlocks", "range"),
+  ("Server.broadcastBlocks", "range"),
+  ("Server.broadcastBlocks", "range")]
+
+/-- reviewed call graph into the functions that reach the table: everything is called from `Server.work` (or from a
+    function only `work` calls), and `work` is started once, with `go`, by `Server.Start` -/
+def reviewedSubscribeCallers : List (String × String × Bool) := [
+  ("Server.broadcast", "Server.broadcastBlocks", false),
+  ("Server.broadcast", "Server.broadcastMomentums", false),
+  ("Server.broadcastBlocks", "Server.work", false),
+  ("Server.broadcastMomentums", "Server.work", false),
+  ("Server.install", "Server.work", false),
+  ("Server.uninstall", "Server.broadcast", false),
+  ("Server.uninstall", "Server.work", false),
+  ("Server.work", "Server.Start", true)]
+
+/-- the functions that run on the worker goroutine and nowhere else -/
+def subscribeWorkerOnly : List String :=
+  ["Server.work", "Server.install", "Server.uninstall", "Server.broadcast", "Server.broadcastMomentums",
+   "Server.broadcastBlocks"]
+
+/-- the functions that touch the table before the worker exists -/
+def subscribeSetupOnly : List String := ["GetSubscribeServer", "Server.Init"]
+
+/-- generated fact: the accesses to `Server.subscriptions` are the reviewed ones -/
+theorem subscribe_access_reviewed : Gen.subscribeAccess = reviewedSubscribeAccess := by decide
+
+/-- generated fact: the references to the functions that reach the table are the reviewed ones -/
+theorem subscribe_callers_reviewed : Gen.subscribeCallers = reviewedSubscribeCallers := by decide
+
+/-- generated fact: the package starts one goroutine, the function literal in `Start` that runs `work` -/
+theorem subscribe_go_sites_reviewed : Gen.subscribeGoSites = ["Server.Start:func"] := by decide
+
+/-- the functions that reach the table without leaving their goroutine are the worker's and the two set-up functions:
+    in particular neither `Server.InsertMomentum` (inserting goroutine) nor a method of `Api` (RPC goroutines) -/
+theorem subscribe_reaching_confined :
+    ∀ f ∈ Gen.subscribeReaching, f ∈ subscribeWorkerOnly ∨ f ∈ subscribeSetupOnly := by decide
+
+/-- confinement, independent of the reviewed edge list: whoever refers to a worker-only function is itself worker-only,
+    except the one `go` statement that starts `work`; so every call chain that ends in an access to the table after
+    set-up starts at the worker's `go` statement -/
+theorem subscribe_worker_confinement : ∀ e ∈ Gen.subscribeCallers, e.1 ∈ subscribeWorkerOnly →
+    e.2.1 ∈ subscribeWorkerOnly ∨ (e = ("Server.work", "Server.Start", true)) := by decide
+
+/-- the set-up functions are not called from inside the package (so not from the worker, the listener or the Api),
+    and every function the scan found is classified -/
+theorem subscribe_setup_not_called : ∀ e ∈ Gen.subscribeCallers, e.1 ∉ subscribeSetupOnly := by decide
+
+/-- the fact lists really speak about the worker loop and the listener's neighbours -/
+theorem subscribe_sites_cover : ∀ n ∈ subscribeWorkerOnly, n ∈ Gen.subscribeReaching := by decide
 
 example : ∃ s, Reachable [] s ∧ s.manager.pooled.length = 2 :=
   ⟨step (step ⟨[], none⟩ (.add { height := 1, hash := [1], prevHash := zeroHash } false))
